@@ -3,14 +3,20 @@ from .. import core, hist
 from ..gen import KEY_POOL, PREFIX, hx, rng_for
 
 ENGINES = ["memkv", "badger", "tikv"]
-EXTRA_PROP_MODULES = [("KB.Props.OrderC08", "KB.OrderC08")]
+EXTRA_PROP_MODULES = [("KB.Props.OrderC08", "KB.OrderC08"), ("KB.Props.C08Fault", "KB.C08Fault")]
 
 
 def gen_case(seed, i, engine, n_rounds):
     r = rng_for(seed, "c08/%d" % i)
     keys = r.sample(KEY_POOL, r.randint(3, 6))
     sh = hist.Shadow()
-    lines = [hist.cfg_line(engine)]
+    kw = {}
+    if r.random() < 0.25:
+        # skipped directories, up to the WHOLE directory of the prefix (no range is left to compact: the compaction is
+        # accepted all the same, its record is written and reads below it are refused)
+        kw["skipped"] = ",".join(hx(x) for x in r.choice([[PREFIX], [PREFIX + b"/"], [b"/"], [PREFIX + b"/a", PREFIX], [PREFIX + b"/a"],
+                                                          [PREFIX + b"/a", PREFIX + b"/b"]]))
+    lines = [hist.cfg_line(engine, **kw)]
     accepted = []
     for _ in range(n_rounds):
         lines += hist.gen_writes(r, sh, r.randint(2, 8), keys)
@@ -87,6 +93,8 @@ def oracle(case):
         if t[0] == "getfault":
             faulted = True
             continue
+        if faulted and t[0] == "compact":
+            faulted = False        # the fault met this compaction's read of the record (recfault_case)
         if faulted and t[0] in ("list", "count", "stream"):
             faulted = False
             answered = (t[0] == "stream" and " end " in out and out.split(" end ")[1].split()[1] == "-") or \
@@ -111,6 +119,41 @@ def oracle(case):
             if R != 0 and R < accepted and " belowfloor " not in out:
                 return ("line %d: %s streamed data/no error below accepted compaction %d: %s" % (i + 1, line, accepted, out[:200]), "read-below-floor")
     return None
+
+
+def recfault_case(seed, i, engine):
+    """a compaction request whose read of the compaction record fails once with a transient engine error: in
+    backend.setCompactRecord (`getfault`: the request ends with that error, nothing is written) or in the scanner
+    (`getfault skip=1`: that range is not compacted this time). Requests OLDER than an accepted one included: the record
+    keeps its value (KB.Props.C08Fault `floor_monotone_recfault`; before fix 539af5f the scanner's failed read fell through
+    to the unconditional Put of the older revision), reads below the accepted floor stay refused, and a later compaction
+    does the work that was skipped."""
+    r = rng_for(seed, "c08rf/%d" % i)
+    keys = r.sample(KEY_POOL, r.randint(3, 5))
+    sh = hist.Shadow()
+    lines = [hist.cfg_line(engine)]
+    lines += hist.gen_writes(r, sh, r.randint(6, 12), keys, p_ok=0.9)
+    a, b = hx(PREFIX + b"/"), hx(PREFIX + b"0")
+    hi = r.randint(hist.INIT + 3, sh.dealt)
+    lines += ["compact %d" % hi, "floor"]
+    for _ in range(r.randint(1, 3)):
+        x = r.random()
+        if x < 0.6:
+            rev = max(1, hi - r.randint(1, hi - hist.INIT))      # older than the accepted one
+        elif x < 0.8:
+            rev = hi
+        else:
+            lines += hist.gen_writes(r, sh, r.randint(1, 4), keys, p_ok=0.9)
+            rev = r.randint(hi, sh.dealt)                          # newer
+        lines.append("getfault" if r.random() < 0.25 else "getfault skip=1")
+        lines += ["compact %d" % rev, "floor"]
+        for rr in sorted(set([max(1, min(rev, hi) - 1), min(rev, hi), max(rev, hi) - 1 if max(rev, hi) > 1 else 1])):
+            lines.append("list %s %s %d %d" % (a, b, rr, r.choice([0, 0, 2])))
+        if r.random() < 0.5:
+            lines += ["compact %d" % rev, "floor", "list %s %s %d 0" % (a, b, max(rev, hi))]
+        hi = max(hi, rev)
+    lines.append("list %s %s 0 0" % (a, b))
+    return core.Case("backend", lines, {"engine": engine})
 
 
 def race_case(seed, i, engine):
@@ -237,6 +280,7 @@ def check(rep, tier, seed):
     cases += [race_case(seed, i, ENGINES[i % 3]) for i in range(12 if tier == "quick" else 1500)]
     cases += [overtaken_case(seed, i, ENGINES[i % 3]) for i in range(12 if tier == "quick" else 1500)]
     cases += [native_compact_case(seed, i, ENGINES[i % 3]) for i in range(3 if tier == "quick" else 60)]
+    cases += [recfault_case(seed, i, ENGINES[i % 3]) for i in range(9 if tier == "quick" else 600)]
     core.run_cases(cases)
     pick = lambda c: (native_compact_oracle(c) if c.meta.get("native_compact") else etcd_oracle(c) if c.meta.get("etcd") else race_oracle(c) if c.meta.get("race")
                       else overtaken_oracle(c) if c.meta.get("overtaken") else oracle(c))
